@@ -178,7 +178,7 @@ func init() {
 	register(&Family{
 		Name: "rand.promise",
 		Props: map[string][2]int{
-			"C01": {700, 60000}, "C04": {300, 20000}, "C05": {400, 30000}, "C08": {300, 30000}, "C03": {200, 10000}, "C07": {200, 20000},
+			"C01": {700, 60000}, "C04": {300, 20000}, "C05": {400, 30000}, "C08": {300, 30000}, "C03": {200, 10000}, "C07": {200, 20000}, "C02": {600, 40000},
 		},
 		Run: func(c *Ctx) {
 			bg := AllBg
